@@ -4,7 +4,7 @@ from mc.patterns import pat, P, H, obs_of
 from models import curve, selfcheck
 
 PROPERTY_ID = "C12"
-RULE = ("one-step programs: full product scalars {00.., FF.., every single-bit scalar (thorough: also every two-adjacent-bit and every all-ones-but-one-bit scalar), clamp-edge patterns, 4 patterns} x u {0,1,9,p-1,p,p+1,2^255-1,2^256-1, "
+RULE = ("one-step programs: full product scalars {00.., FF.., every single-bit scalar (thorough: also every two-adjacent-bit and every all-ones-but-one-bit scalar), clamp-edge patterns, 4 patterns} x u {0,1,9,p-1,p,p+1,2^255-1,2^256-1, every small u 2..32 (thorough 2..255) and p-u, "
         "small-order u values and their non-canonical twins, each also with bit 255 set, 4 patterns} through curve25519 and x25519::dh; fixed-base function == "
         "general function at u=9 for every scalar; both parties of an exchange agree for all pairs of pattern scalars; RFC 7748 iteration 1 and 1000; "
         "oracle = python RFC 7748 section 5; distinct = program text")
@@ -17,8 +17,14 @@ def builds_needed(tier):
     return ["rel"]
 
 
+# Own corpus re-run on other builds of the crate (mc/core.py: extra builds). Every observation is compared with the same model.
+def extra_builds(tier):
+    return [("relchk", None), ("fe32", None)]
+
+
+
 def bounds(tier):
-    return {"single_bit_scalars": 256, "two_adjacent_bit_and_single_zero_bit_scalars": 511 if tier == "thorough" else 0, "u_values": len(us())}
+    return {"single_bit_scalars": 256, "two_adjacent_bit_and_single_zero_bit_scalars": 511 if tier == "thorough" else 0, "u_values": len(us(tier))}
 
 
 def validate_models(tier):
@@ -39,7 +45,7 @@ def scalars(tier):
     return out
 
 
-def us():
+def us(tier="quick"):
     so = [0, 1, 325606250916557431795983626356110631294008115727848805560023387167927233504,
           39382357235489614581723060781553021112529911719440698176882885853963445705823, PP - 1, PP, PP + 1]
     vals = [0, 1, 9, PP - 1, PP, PP + 1, (1 << 255) - 1, (1 << 256) - 1] + so
@@ -51,13 +57,19 @@ def us():
             if b not in out:
                 out.append(b)
     out += [pat(k, 7, 32) for k in (5, 6, 7, 2)]
+    # small u (the first ladder steps then work on tiny field elements) and their negatives
+    small = range(2, 256) if tier == "thorough" else range(2, 33)
+    for v in small:
+        for b in (le(v), le(PP - v)):
+            if b not in out:
+                out.append(b)
     return out
 
 
 def cases(tier, part=None, nparts=1):
     """build-independent case list (also used by C17 and C20); part/nparts select every nparts-th scalar"""
     out = []
-    U = us()
+    U = us(tier)
     for j, s in enumerate(scalars(tier)):
         if part is not None and j % nparts != part:
             continue
@@ -74,7 +86,7 @@ def cases(tier, part=None, nparts=1):
 NSH = 16
 
 
-def shards(tier):
+def _own_shards(tier):
     return [("shard", i) for i in range(NSH)]
 
 
@@ -100,3 +112,17 @@ def cases_tail():
     for n, e in ((0, "FFF"), (31, "FFF"), (32, "TTT"), (33, "FFF")):
         out.append((["x25519_tryfrom %s" % (P(5, 0, n) if n else "h:")], [e], None))
     return out
+
+
+def shards(tier):
+    # the ladder is a fixed sequence of field operations (incl. the crate-private multiplication by 121666, reached through a hook): the limb-field and result-steering programs of C15 drive their rare carry paths directly, as a component of this property
+    from props import c15
+    comp = []
+    for fname in ['shard_limbs']:
+        comp += [("shard_c15_component", (f, a)) for (f, a) in c15.shards(tier) if f == fname]
+    return _own_shards(tier) + comp
+
+
+def shard_c15_component(arg, tier):
+    from mc import multi
+    return multi.run_component("c15", arg[0], arg[1], tier, PROPERTY_ID)
